@@ -396,6 +396,14 @@ def check_C07(chk):
         for cnt in (1, 2, 3):
             for pwl in (5, 64, 65, 100):
                 lines.append(f"pbkdf2 id=tp{cnt}-{pwl} len=40 count={cnt} pw={datav(r, pwl, 'rz'[cnt % 2])} salt={datav(r, 8)}")
+        # incremental interfaces: hash, HMAC (short and > 64-byte keys), HKDF
+        for o, (kl, m1, m2) in enumerate([(5, 3, 20), (64, 16, 1), (100, 17, 33), (0, 0, 40)]):
+            ks = datav(r, kl) if kl else '-'
+            lines += [f"hinit id=ti{o}a obj={o}", f"hupdate id=ti{o}b obj={o} d={datav(r, m1) if m1 else '-'}", f"hupdate id=ti{o}c obj={o} d={datav(r, m2)}",
+                      f"hfinal id=ti{o}d obj={o}", f"hminit id=ti{o}e obj={o} k={ks}", f"hmupdate id=ti{o}f obj={o} d={datav(r, m2)}",
+                      f"hmfinal id=ti{o}g obj={o} k={ks}", f"hmfree id=ti{o}h obj={o}",
+                      f"hkextract id=ti{o}i obj={o} key={datav(r, 10 + kl)} salt={ks}", f"hkexpand id=ti{o}j obj={o} info=01 len={m1 + 30}",
+                      f"hkexpand id=ti{o}k obj={o} info=01 len={m2 + 40}", f"hkfree id=ti{o}l obj={o}"]
         # PRNG: entropy and state are secret; cross the reseed limit (automatic reseed) and reseed explicitly
         for pi, dels in enumerate([['full'] * 6, ['full', 'short', 'full', 'none', 'full', 'full']]):
             ops = [dict(op='pinit', arg=5), dict(op='pgen', arg=32), dict(op='pgen', arg=1056), dict(op='pfeed', arg=9), dict(op='preseed'),
@@ -410,6 +418,8 @@ def check_C07(chk):
                 units.append(cur)
             elif re.match(r'(pinit|pgen|pfeed|preseed|plimit|pfree)\b', ln) and cur is not None:
                 cur.append(ln)
+            elif re.match(r'(hupdate|hfinal|hminit|hmupdate|hmfinal|hmfree|hkextract|hkexpand|hkfree)\b', ln) and units:
+                units[-1].append(ln)          # stays with the hinit that opened the object history
             else:
                 units.append([ln])
         nparts = min(NCPU, max(1, len(units) // 20))
